@@ -362,10 +362,13 @@ class SimQueue:
             if not self.q:
                 raise _queue.Empty
             return self.q.popleft()
-        ok = SIM.block_until(lambda: len(self.q) > 0, timeout, 'queue')
-        if not ok or not self.q:
-            raise _queue.Empty
-        return self.q.popleft()
+        while True:
+            ok = SIM.block_until(lambda: len(self.q) > 0, timeout, 'queue')
+            if self.q:
+                return self.q.popleft()
+            if timeout is not None:
+                raise _queue.Empty  # timed get: gave up (or another consumer was faster and the time is used up)
+            # untimed get whose item was taken by another consumer in the meantime: keep waiting, as the real queue does
 
     def empty(self):
         return not self.q
